@@ -1,6 +1,5 @@
 import Bmc.Proofs.C16
 import Bmc.Proofs.GenDec.CipherSuiteRecords
-import Bmc.Proofs.GenOrch.TranslatedOk
 import Bmc.Proofs.GenOrch.GetEntityInstances
 import Bmc.Proofs.GenOrch.GetSensorMap
 import Bmc.Proofs.GenOrch.CountRecordIDs
@@ -30,8 +29,6 @@ import Bmc.Proofs.GenOrch.RetrieveSupportedCipherSuites
 #print axioms Bmc.Proofs.C16.sensorInfo_err
 #print axioms Bmc.Proofs.GenDec.parseCipherSuiteRecordData_gen_eq
 #print axioms Bmc.Proofs.GenDec.parseCipherSuiteRecordData_fuel
-#print axioms Bmc.Proofs.GenOrch.translated_ok
-#print axioms Bmc.Proofs.GenOrch.gaveUp_none
 #print axioms Bmc.Proofs.GenOrch.getEntityInstances_gen_eq
 #print axioms Bmc.Proofs.GenOrch.getEntityInstances_fuel
 #print axioms Bmc.Proofs.GenOrch.getEntityInstances_fuel_any
